@@ -5,10 +5,11 @@ From GK Require Export RepoCheck Timer.
 
 Record hcfg := mkHcfg {
   hc_refresh_on_demote : bool;  (* UpdateById of the cached head that does not promote it re-reads the cache *)
-  hc_inclusive : bool           (* other ids: re-arm on "not after" / ">=" instead of "before" / ">" *)
+  hc_inclusive : bool;          (* other ids: re-arm on "not after" / ">=" instead of "before" / ">" *)
+  hc_normalize : bool           (* UpdateById normalizes the parameter before looking at it (F17) *)
 }.
-Definition hcfg_pinned : hcfg := mkHcfg false false.   (* the pinned source *)
-Definition hcfg_fixed : hcfg := mkHcfg true true.      (* with the repair of F7(b) *)
+Definition hcfg_pinned : hcfg := mkHcfg false false false.   (* the pinned source *)
+Definition hcfg_fixed : hcfg := mkHcfg true true true.       (* with the repairs F7 and F17 *)
 
 Record hook := mkHook {
   hk_cached : option task;    (* cachedMin (None = zero value, Id == "") *)
@@ -57,7 +58,8 @@ Definition hook_add (fault : bool) (now : gtime) (p : uparam) (s : hstate) : hst
   | Some c => if task_less (to_task p never_id far_future) c then hk_update fault now s else s
   end.
 
-Definition hook_update (hc : hcfg) (fault : bool) (now : gtime) (id : string) (p : uparam) (s : hstate) : hstate :=
+(* the decision table proper; [p] is the parameter as the hook looks at it *)
+Definition hook_update_raw (hc : hcfg) (fault : bool) (now : gtime) (id : string) (p : uparam) (s : hstate) : hstate :=
   match hk_cached (hs_hook s) with
   | None => hk_update fault now s
   | Some c =>
@@ -81,6 +83,11 @@ Definition hook_update (hc : hcfg) (fault : bool) (now : gtime) (id : string) (p
         else other p'
     else other p
   end.
+
+(* UpdateById: the (repaired) hook first normalizes the parameter — it compares what the repository stores;
+   the pinned source compared the raw parameter *)
+Definition hook_update (hc : hcfg) (fault : bool) (now : gtime) (id : string) (p : uparam) (s : hstate) : hstate :=
+  hook_update_raw hc fault now id (if hc_normalize hc then norm_uparam p else p) s.
 
 Definition hook_cancel (fault : bool) (now : gtime) (id : string) (s : hstate) : hstate :=
   match hk_cached (hs_hook s) with
